@@ -419,32 +419,50 @@ func SolveLock(obls []*Obligation) {
 				ok := 0
 				var tot time.Duration
 				o.Status = "unknown"
-				for _, sp := range solvers {
-					st, _, el := runSolver(sp, file, lockBudget, 0)
-					tot += el
-					if st == want {
-						ok++
-						if o.Solver == "" {
-							o.Solver = sp.name
+				files := []string{file}
+				if o.HasVariant() && o.Expect != "sat" {
+					// the second formulation of the goal counts like the first: two confirmations of either
+					file1 := filepath.Join(scratchDir(), fmt.Sprintf("l%pv.smt2", o))
+					os.WriteFile(file1, []byte(o.QueryVariant(1)), 0o644)
+					files = append(files, file1)
+					defer os.Remove(file1)
+				}
+				for _, qf := range files {
+					ok = 0
+					first := ""
+					for _, sp := range solvers {
+						st, _, el := runSolver(sp, qf, lockBudget, 0)
+						tot += el
+						if st == want {
+							ok++
+							if first == "" {
+								first = sp.name
+							}
+							if o.Solver == "" {
+								o.Solver = sp.name
+							}
+						} else if st == "sat" || st == "unsat" {
+							o.Status = st
+						} else if o.Status == "unknown" {
+							o.Status = st
 						}
-					} else if st == "sat" || st == "unsat" {
-						o.Status = st
-					} else if o.Status == "unknown" {
-						o.Status = st
+						if ok >= 2 {
+							break
+						}
+					}
+					if ok == 1 {
+						// one back end only (the others ran out of the lock budget, typically on string-heavy queries):
+						// a second, differently seeded run of the primary solver inside the budget is accepted as the
+						// second confirmation
+						if st, _, el := runSolver(solvers[0], qf, lockBudget, 7); st == want {
+							tot += el
+							if first == solvers[0].name {
+								ok++
+							}
+						}
 					}
 					if ok >= 2 {
 						break
-					}
-				}
-				if ok == 1 {
-					// one back end only (the others ran out of the lock budget, typically on string-heavy queries):
-					// a second, differently seeded run of the primary solver inside the budget is accepted as the
-					// second confirmation
-					if st, _, el := runSolver(solvers[0], file, lockBudget, 7); st == want {
-						tot += el
-						if o.Solver == solvers[0].name {
-							ok++
-						}
 					}
 				}
 				o.Ms = tot.Milliseconds()
@@ -959,6 +977,24 @@ func (w *World) passOrder(spec string) (string, string) {
 		}
 	}
 	phi, ok := ia.Index.(*ssa.Phi)
+	if !ok {
+		// a range loop keeps a hidden counter that starts at -1 and indexes with counter + 1
+		if bo, isBin := ia.Index.(*ssa.BinOp); isBin && bo.Op == token.ADD {
+			if c, isC := bo.Y.(*ssa.Const); isC && c.Int64() == 1 {
+				if p2, isPhi := bo.X.(*ssa.Phi); isPhi {
+					startsBefore := false
+					for _, e := range p2.Edges {
+						if c, isC := e.(*ssa.Const); isC && c.Int64() == -1 {
+							startsBefore = true
+						}
+					}
+					if startsBefore {
+						phi, ok = p2, true
+					}
+				}
+			}
+		}
+	}
 	if !ok || len(phi.Edges) != 2 {
 		return "sat", "the loop index is not a simple counter"
 	}
